@@ -2402,3 +2402,52 @@ package sdf
 //@   ensures [ordered] !isnil(r) ==> ord3(r.BoundingBox())
 //@   ensures [encloses] !isnil(r) && d < 0 ==> r.BoundingBox().Contains(p)
 //@ end
+
+//@ func UnionSDF2.Evaluate
+//@   property C01
+//@   id value-of-one-operand
+//@   pure
+//@   local
+//@   requires len(s.sdf) >= 1
+//@   requires forall k int :: 0 <= k && k < len(s.sdf) ==> !isnil(s.sdf[k])
+//@   requires forall a float64, b float64 :: s.min(a, b) == min(a, b)
+//@   invariant 0 rangeindex >= -1 && rangeindex < len(s.sdf) && len(vs) == len(s.sdf) && 0 <= minIndex && (rangeindex >= 0 ==> minIndex <= rangeindex)
+//@   invariant 0 rangeindex == -1 ==> minDist2 == -1 && minIndex == 0
+//@   invariant 1 rangeindex >= -1 && rangeindex < len(s.sdf) && len(vs) == len(s.sdf) && 0 <= minIndex && minIndex < len(s.sdf)
+//@   invariant 1 rangeindex >= minIndex ==> !first
+//@   invariant 1 exists w int :: first || (0 <= w && w <= rangeindex && d == s.sdf[w].Evaluate(p))
+//@   ensures [the-result-is-the-value-of-one-operand] exists w int :: 0 <= w && w < len(s.sdf) && r == s.sdf[w].Evaluate(p)
+//@ end
+
+//@ func Union2D
+//@   property C01
+//@   id ENC
+//@   summarise UnionSDF2.Evaluate value-of-one-operand
+//@   forall p v2.Vec
+//@   requires forall k int :: 0 <= k && k < len(sdf) && !isnil(sdf[k]) ==> ord2(sdf[k].BoundingBox())
+//@   requires forall k int, q v2.Vec :: 0 <= k && k < len(sdf) && !isnil(sdf[k]) ==> enc2(sdf[k], q)
+//@   invariant 0 rangeindex >= -1 && rangeindex < len(sdf) && len(s.sdf) <= rangeindex + 1
+//@   invariant 0 forall j int :: 0 <= j && j < len(s.sdf) ==> !isnil(s.sdf[j]) && ord2(s.sdf[j].BoundingBox())
+//@   invariant 0 forall j int, q v2.Vec :: 0 <= j && j < len(s.sdf) ==> enc2(s.sdf[j], q)
+//@   invariant 1 rangeindex >= -1 && rangeindex < len(s.sdf) && ord2(bb)
+//@   invariant 1 forall j int :: 0 <= j && j <= rangeindex ==> bb.Min.X <= s.sdf[j].BoundingBox().Min.X && bb.Min.Y <= s.sdf[j].BoundingBox().Min.Y && bb.Max.X >= s.sdf[j].BoundingBox().Max.X && bb.Max.Y >= s.sdf[j].BoundingBox().Max.Y
+//@   let d = r.Evaluate(p)
+//@   ensures [nothing-to-unite] len(sdf) == 0 ==> isnil(r)
+//@   ensures [ordered] !isnil(r) ==> ord2(r.BoundingBox())
+//@   ensures [encloses] !isnil(r) && d < 0 ==> r.BoundingBox().Contains(p)
+//@ end
+
+//@ func Union3D
+//@   property C03
+//@   id LIP
+//@   summarise UnionSDF3.Evaluate minimum-over-all-operands
+//@   forall p v3.Vec, q v3.Vec
+//@   requires forall k int, a v3.Vec, b v3.Vec :: 0 <= k && k < len(sdf) && !isnil(sdf[k]) ==> lip3(sdf[k], a, b)
+//@   invariant 0 rangeindex >= -1 && rangeindex < len(sdf) && len(s.sdf) <= rangeindex + 1
+//@   invariant 0 forall j int :: 0 <= j && j < len(s.sdf) ==> !isnil(s.sdf[j])
+//@   invariant 0 forall j int, a v3.Vec, b v3.Vec :: 0 <= j && j < len(s.sdf) ==> lip3(s.sdf[j], a, b)
+//@   invariant 1 rangeindex >= -1 && rangeindex < len(s.sdf)
+//@   let dp = r.Evaluate(p)
+//@   let dq = r.Evaluate(q)
+//@   ensures [one-lipschitz-whatever-the-number-of-operands] !isnil(r) ==> sq(dp - dq) <= p.Sub(q).Length2()
+//@ end
